@@ -15,7 +15,7 @@ import z3
 
 from . import lapack, shim, smt, terms
 from .array import SymArray, W, lift, _raw, symvar_array
-from .core import C, E, Inconclusive, PathAbort, Sym, SymBool
+from .core import C, E, Inconclusive, PathAbort, PyComplexSym, PyFloatSym, Sym, SymBool
 
 SEED = int(os.environ.get("VERIF_SEED", "0") or 0)
 
@@ -104,7 +104,7 @@ class SymT(BaseT):
         else:
             v = s.var(name, positive=positive)
         if form == 'py':
-            return v
+            return PyComplexSym(v) if ld.kind == 'c' else PyFloatSym(v)
         return W(v, ld)
 
     def const(s, x, dtype=None):
@@ -122,7 +122,12 @@ class SymT(BaseT):
 
     # ---- obligations --------------------------------------------------------------------
     def _ctx(s):
-        return list(E.pre) + list(E.defs) + list(E.pc)
+        # domain events (divisor != 0, radicand >= 0, log argument > 0) met so far are assumptions of every
+        # obligation: identities are claimed where the executed operations are defined
+        return list(E.pre) + list(E.defs) + list(E.pc) + [e for k, e, ok in E.domain]
+
+    def domain_events(s, kind=None):
+        return [(k, e) for k, e, ok in E.domain if kind is None or k == kind]
 
     def eq(s, label, got, want, dtype=True, shape=True):
         """got == want entrywise (and same shape / logical dtype)"""
